@@ -113,8 +113,6 @@ Section Formulas.
   Variables (X : 'M[F]_(n, d)) (w : 'cV[F]_n).
   Let env := sc_env_fit_mx X w.
   Let ew := sc_effw cfg w.
-  (* the weights are usable: given weights have a non-zero sum *)
-  Definition sc_wok : bool := has_w cfg ==> (wsum w != 0).
 
   Lemma ev_vX : eval_mx env (vX n d) = X.
   Proof. by rewrite /vX evVar /env /sc_env_fit_mx /env_of /= unbox_box. Qed.
@@ -138,16 +136,16 @@ Section Formulas.
   Qed.
 
   Lemma wmean_wts (p : nat) (A : 'M[F]_(n, p)) :
-    sc_wok -> wmean (eval_mx env (sc_wts cfg n)) A = wmean ew A.
+    sc_wok cfg w -> wmean (eval_mx env (sc_wts cfg n)) A = wmean ew A.
   Proof.
     rewrite ev_wts /sc_wok /ew /sc_effw; case: (has_w cfg) => //= S0.
     by rewrite wmean_scale_w // invr_eq0.
   Qed.
 
-  Lemma ev_xmean : sc_wok -> eval_mx env (sc_xmean cfg n d) = wmean ew X.
+  Lemma ev_xmean : sc_wok cfg w -> eval_mx env (sc_xmean cfg n d) = wmean ew X.
   Proof. by move=> ok; rewrite /sc_xmean ev_avg wmean_wts // ev_vX. Qed.
 
-  Lemma ev_var : sc_wok -> eval_mx env (sc_var cfg n d) = wvar ew X.
+  Lemma ev_var : sc_wok cfg w -> eval_mx env (sc_var cfg n d) = wvar ew X.
   Proof.
     move=> ok; rewrite /sc_var ev_avg wmean_wts // wvarE; congr (wmean _ _).
     apply/matrixP => i j.
@@ -155,14 +153,14 @@ Section Formulas.
     by rewrite !mxE /= big_ord1 !mxE mul1r expr2.
   Qed.
 
-  Lemma ev_varsum : sc_wok ->
+  Lemma ev_varsum : sc_wok cfg w ->
     (eval_mx env (sc_varsum cfg n d)) ord0 ord0 = \sum_j (wvar ew X) ord0 j.
   Proof.
     move=> ok; rewrite /sc_varsum evMul evOnes ev_var // !mxE.
     by apply: eq_bigr => j _; rewrite !mxE mulr1.
   Qed.
 
-  Lemma ev_avgmean : sc_wok ->
+  Lemma ev_avgmean : sc_wok cfg w ->
     (eval_mx env (sc_avgmean cfg n d)) ord0 ord0 = (\sum_j (wmean ew X) ord0 j) / d%:R.
   Proof.
     move=> ok; rewrite /sc_avgmean evScale evMap !evMul !evOnes ev_xmean // !mxE mulrC.
@@ -177,7 +175,7 @@ Section Formulas.
       if column_wise cfg then map_mx Num.sqrt v else const_mx (Num.sqrt (\sum_j v ord0 j))
     else const_mx 1.
 
-  Lemma ev_scale : sc_wok -> eval_mx env (sc_scale cfg n d) = scale_of (wvar ew X).
+  Lemma ev_scale : sc_wok cfg w -> eval_mx env (sc_scale cfg n d) = scale_of (wvar ew X).
   Proof.
     move=> ok; rewrite /sc_scale /scale_of; case: (with_std cfg) => //.
     case: (column_wise cfg); first by rewrite evMap ev_var.
@@ -188,7 +186,7 @@ Section Formulas.
 
   Definition mean_of (m : 'rV[F]_d) : 'rV[F]_d := if with_mean cfg then m else 0.
 
-  Lemma ev_mean : sc_wok -> eval_mx env (sc_mean cfg n d) = mean_of (wmean ew X).
+  Lemma ev_mean : sc_wok cfg w -> eval_mx env (sc_mean cfg n d) = mean_of (wmean ew X).
   Proof.
     by move=> ok; rewrite /sc_mean /mean_of; case: (with_mean cfg) => //; rewrite ev_xmean.
   Qed.
@@ -200,7 +198,7 @@ Section Formulas.
       else \sum_j v ord0 j < `|(\sum_j m ord0 j) / d%:R| * rtol + atol
     else false.
 
-  Lemma ev_guard rtol atol : sc_wok ->
+  Lemma ev_guard rtol atol : sc_wok cfg w ->
     sc_guard_mx cfg n d rtol atol env = guard_of rtol atol (wmean ew X) (wvar ew X).
   Proof.
     move=> ok; rewrite /sc_guard_mx /guard_of; case: (with_std cfg) => //.
@@ -212,7 +210,7 @@ Section Formulas.
   Definition fit_of (rtol atol : F) (small : bool) (m v : 'rV[F]_d) : option ('rV[F]_d * 'rV[F]_d) :=
     if small then None else if guard_of rtol atol m v then None else Some (mean_of m, scale_of v).
 
-  Lemma sc_fit_mxE rtol atol : sc_wok ->
+  Lemma sc_fit_mxE rtol atol : sc_wok cfg w ->
     sc_fit_mx cfg rtol atol X w = fit_of rtol atol (n < 2)%N (wmean ew X) (wvar ew X).
   Proof.
     by move=> ok; rewrite /sc_fit_mx /fit_of -/env ev_guard // ev_mean // ev_scale.
@@ -535,7 +533,23 @@ Section MoreTheorems.
     move: e1' e2'; rewrite wmean_shift // wvar_shift // -e2 => e1' e2'; split=> // wm k Y.
     apply/matrixP => i j; rewrite !sc_transform_mx_ij e2' e1' e1 /mean_of wm.
     move: (wmean _ X) => m; rewrite !mxE.
-    congr (_ / _). Show. ring.
+    by congr (_ / _); rewrite opprD addrA addrAC addrK.
+  Qed.
+
+  (* with rtol = 0 the guard itself is shift invariant: the shifted fit succeeds too *)
+  Lemma sc_shift_fit st (c : 'rV[F]_d) :
+    rtol = 0 -> sc_fit_mx cfg rtol atol X w = Some st ->
+    sc_fit_mx cfg rtol atol (X + rows_of n c) w
+    = Some (if with_mean cfg then st.1 + c else st.1, st.2).
+  Proof.
+    move=> r0 fitS; have [n1 S0 g e1 e2] := fit_some ok fitS.
+    rewrite sc_fit_mxE // wmean_shift // wvar_shift // /fit_of ltnNge n1 /=.
+    have -> : guard_of cfg rtol atol (wmean ew X + c) (wvar ew X)
+              = guard_of cfg rtol atol (wmean ew X) (wvar ew X).
+      rewrite /guard_of r0; case: (with_std cfg) => //.
+      case: (column_wise cfg); last by rewrite !mulr0.
+      by apply: eq_existsb => j; rewrite !mulr0.
+    by rewrite (negbTE g) e1 e2 /mean_of; case: (with_mean cfg).
   Qed.
 
   (* a prior uniform rescaling by a != 0: the transformed data is multiplied by sign a *)
@@ -557,7 +571,7 @@ Section MoreTheorems.
       rewrite (eq_bigr (fun j => a ^+ 2 * (wvar ew X) ord0 j)) => [|l _]; last by rewrite mxE.
       by rewrite -mulr_sumr sqrtrM ?sqr_ge0 // sqrtr_sqr.
     have sg : a / `|a| = Num.sg a by rewrite {1}(numEsg a) mulfK // normr_eq0.
-    apply/matrixP => i j; rewrite mxE !sc_transform_mx_ij m' s' !mxE -mulrBr invfM -sg.
+    apply/matrixP => i j; rewrite [RHS]mxE !sc_transform_mx_ij m' s' !mxE -mulrBr invfM -sg.
     by rewrite mulrACA.
   Qed.
 End MoreTheorems.
@@ -578,7 +592,33 @@ Section ReplicateTheorem.
   Proof.
     move=> n1 N1; rewrite !sc_fit_mxE //; last first.
       rewrite /sc_wok /= -(wsum_rep count) wsum_ones pnatr_eq0 -lt0n; exact: ltnW.
-    rewrite /sc_effw /= wmean_rep // wvar_rep // !ltnNge n1 N1.
-    by [].
+    have -> : (n < 2)%N = false by rewrite ltnNge n1.
+    have -> : (N < 2)%N = false by rewrite ltnNge N1.
+    by rewrite /sc_effw /= (wmean_rep count) (wvar_rep count).
   Qed.
 End ReplicateTheorem.
+
+(* ---- a concrete accepted input over every real closed field (non-vacuity) ------------------ *)
+Lemma sc_nonvacuous (F : rcfType) :
+  let X : 'M[F]_(2, 1) := \matrix_(i, j) (i : nat)%:R *+ 2 in
+  sc_wok (ScCfg true true true false) (0 : 'cV[F]_2)
+  /\ sc_fit_mx (ScCfg true true true false) 0 (2%:R^-1) X 0 = Some (const_mx 1, const_mx 1).
+Proof.
+  move=> X; split=> //; rewrite sc_fit_mxE // /sc_effw /=.
+  have two : (2%:R : F) != 0 by rewrite pnatr_eq0.
+  have m1 : wmean (const_mx 1) X = const_mx 1.
+    apply/rowP => j; rewrite wmean_ones !mxE !big_ord_recl big_ord0 !mxE /=.
+    have -> : bump 0 0 = 1%N by [].
+    by rewrite !add0r addr0; apply: divff.
+  have v1 : wvar (const_mx 1) X = const_mx 1.
+    rewrite wvarE m1 wmean_ones; apply/rowP => j.
+    rewrite !mxE !big_ord_recl big_ord0 !mxE /=.
+    have -> : bump 0 0 = 1%N by [].
+    rewrite !add0r sqrrN expr1n addrK expr1n addr0.
+    exact: divff.
+  rewrite m1 v1 /fit_of /guard_of /mean_of /scale_of /=.
+  have -> : [exists j, (const_mx 1 : 'rV[F]_1) ord0 j < 2%:R^-1 + `|(const_mx 1 : 'rV[F]_1) ord0 j| * 0] = false.
+    apply/negbTE; rewrite negb_exists; apply/forallP => j.
+    by rewrite !mxE mulr0 addr0 -leNgt invf_le1 ?ler1n // ltr0n.
+  congr (Some (_, _)); apply/rowP => j; by rewrite !mxE sqrtr1.
+Qed.
